@@ -27,6 +27,8 @@ pub struct CsvDump {
 
 impl CsvDump {
     fn create_writer(cap: usize, path: PathBuf) -> Result<BufWriter<File>> {
+        #[cfg(rbp_verif)]
+        crate::verif::ev("tmp_create", &format!("\"file\":{}", crate::verif::js(path.file_name().unwrap().to_str().unwrap())));
         Ok(BufWriter::with_capacity(cap, File::create(path)?))
     }
 }
@@ -108,12 +110,24 @@ impl Callback for CsvDump {
         // Keep in sync with c'tor
         for f in ["blocks", "transactions", "tx_in", "tx_out"] {
             // Rename temp files
+            #[cfg(rbp_verif)]
+            {
+                let w = match f {
+                    "blocks" => &self.block_writer,
+                    "transactions" => &self.tx_writer,
+                    "tx_in" => &self.txin_writer,
+                    _ => &self.txout_writer,
+                };
+                crate::verif::ev("rename", &format!("\"file\":\"{}.csv.tmp\",\"to\":\"{}-{}-{}.csv\",\"buffered\":{}", f, f, self.start_height, block_height, w.buffer().len()));
+            }
             fs::rename(
                 self.dump_folder.as_path().join(format!("{}.csv.tmp", f)),
                 self.dump_folder
                     .as_path()
                     .join(format!("{}-{}-{}.csv", f, self.start_height, block_height)),
             )?;
+            #[cfg(rbp_verif)]
+            crate::verif::ev("renamed", &format!("\"file\":\"{}.csv.tmp\"", f));
         }
 
         info!(target: "callback", "Done.\nDumped blocks from height {} to {}:\n\
